@@ -198,6 +198,9 @@ enum SOp {
     CloneSwap,
     /// call Searcher::haystack()
     Haystack,
+    /// from here on the searcher is driven from another thread (if its type is Send): it moves
+    /// to a helper thread that has just used a searcher of its own
+    Hop,
     Consumer(String),
 }
 
@@ -215,6 +218,7 @@ impl SOp {
             SOp::NextBack2 => "next_back@2".into(),
             SOp::CloneSwap => "clone_swap".into(),
             SOp::Haystack => "haystack".into(),
+            SOp::Hop => "hop".into(),
             SOp::Consumer(c) => format!("std:{}", c),
         }
     }
@@ -231,6 +235,7 @@ impl SOp {
             "next_back@2" => SOp::NextBack2,
             "clone_swap" => SOp::CloneSwap,
             "haystack" => SOp::Haystack,
+            "hop" => SOp::Hop,
             _ => return s.strip_prefix("std:").map(|c| SOp::Consumer(c.to_string())),
         })
     }
@@ -408,6 +413,16 @@ fn gen_sworld(base: u64, run: u64) -> SWorld {
         };
         script.push(op);
     }
+    // 1 world in 10: the searcher changes threads somewhere in the script (twice in a quarter
+    // of those: there and back)
+    if sc.chance(1, 10) {
+        let at = sc.usize_below(script.len() + 1);
+        script.insert(at, SOp::Hop);
+        if sc.chance(1, 4) {
+            let at2 = at + 1 + sc.usize_below(script.len() - at);
+            script.insert(at2, SOp::Hop);
+        }
+    }
     // every world also runs a few consumers at the end
     for _ in 0..sc.range(1, 4) {
         script.push(SOp::Consumer(CONSUMERS[sc.usize_below(CONSUMERS.len())].to_string()));
@@ -533,6 +548,8 @@ struct SExec {
     sibling_steps: usize,
     big_worlds: usize,
     clone_swaps: usize,
+    hops: usize,
+    remote_calls: usize,
     claims_de: bool,
     sim_steps: u64,
     outcome_hash: u64,
@@ -820,6 +837,103 @@ fn finish_searcher(w: &SWorld, f: &[(usize, usize)], fw: &DirState, bw: &DirStat
     }
 }
 
+// ------------------------------------------------------------------ helper threads (Hop)
+
+struct SendPtr<T: ?Sized>(*mut T);
+unsafe impl<T: ?Sized> Send for SendPtr<T> {}
+
+/// A thread that executes closures handed to it one at a time while the caller waits: the
+/// world stays sequential (one thread runs at any time), only *which* OS thread drives the
+/// searcher changes - and with it every thread-local the library may keep.
+struct Helper {
+    tx: Option<std::sync::mpsc::Sender<Box<dyn FnOnce() + Send + 'static>>>,
+    done: std::sync::mpsc::Receiver<()>,
+    handle: Option<std::thread::JoinHandle<()>>,
+}
+
+impl Helper {
+    fn new(tid: usize) -> Helper {
+        let (tx, rx) = std::sync::mpsc::channel::<Box<dyn FnOnce() + Send + 'static>>();
+        let (dtx, drx) = std::sync::mpsc::channel::<()>();
+        let handle = std::thread::Builder::new()
+            .stack_size(4 << 20)
+            .spawn(move || {
+                let ctx = Ctx::new(tid, std::ptr::null());
+                with_ctx(&ctx, |_| {
+                    for job in rx {
+                        job();
+                        let _ = dtx.send(());
+                    }
+                });
+            })
+            .expect("spawn helper");
+        Helper { tx: Some(tx), done: drx, handle: Some(handle) }
+    }
+
+    /// Run `f` on the helper thread and wait for it. The borrow is handed over as a raw
+    /// pointer: sound because this call does not return before the job has finished.
+    fn run(&self, f: &mut (dyn FnMut() + Send)) {
+        let p = SendPtr(f as *mut (dyn FnMut() + Send));
+        let job: Box<dyn FnOnce() + Send + '_> = Box::new(move || {
+            let p = p;
+            unsafe { (*p.0)() }
+        });
+        let job: Box<dyn FnOnce() + Send + 'static> = unsafe { std::mem::transmute(job) };
+        if self.tx.as_ref().expect("helper alive").send(job).is_err() || self.done.recv().is_err() {
+            sched::harness_fatal("helper thread died");
+        }
+    }
+}
+
+impl Drop for Helper {
+    fn drop(&mut self) {
+        self.tx = None;
+        if let Some(h) = self.handle.take() {
+            let _ = h.join();
+        }
+    }
+}
+
+/// Arm the current thread's hook context for one section of library code.
+fn armed_here(fuel: u64, f: &mut dyn FnMut()) -> Result<(), bool> {
+    let ctx = sched::cur_ctx().expect("hook context installed");
+    ctx.op_steps.set(0);
+    ctx.fuel.set(fuel);
+    ctx.cancel_at.set(0);
+    ctx.armed.set(true);
+    let r = catch_unwind(AssertUnwindSafe(|| f()));
+    ctx.armed.set(false);
+    match r {
+        Ok(()) => Ok(()),
+        Err(p) => Err(p.is::<SimCancel>()),
+    }
+}
+
+/// Run a section either here or on a helper thread. Going elsewhere needs the closure - i.e.
+/// the searcher it borrows - to be Send; if the searcher type is not Send (nothing in the
+/// property demands it) the section silently stays on this thread (counted: `remote_calls`).
+trait Dispatch {
+    fn dispatch(&mut self, helper: Option<&Helper>, fuel: u64, remote: &mut usize) -> Result<(), bool>;
+}
+impl<F: FnMut()> Dispatch for F {
+    default fn dispatch(&mut self, _helper: Option<&Helper>, fuel: u64, _remote: &mut usize) -> Result<(), bool> {
+        armed_here(fuel, self)
+    }
+}
+impl<F: FnMut() + Send> Dispatch for F {
+    fn dispatch(&mut self, helper: Option<&Helper>, fuel: u64, remote: &mut usize) -> Result<(), bool> {
+        match helper {
+            None => armed_here(fuel, self),
+            Some(h) => {
+                *remote += 1;
+                let mut res: Result<(), bool> = Ok(());
+                h.run(&mut || res = armed_here(fuel, self));
+                res
+            }
+        }
+    }
+}
+
 fn exec_sworld(w: &SWorld) -> SExec {
     sched::install_hook();
     simcore::run::install_panic_hook();
@@ -838,6 +952,8 @@ fn exec_sworld(w: &SWorld) -> SExec {
         sibling_steps: 0,
         big_worlds: 0,
         clone_swaps: 0,
+        hops: 0,
+        remote_calls: 0,
         claims_de: false,
         sim_steps: 0,
         outcome_hash: 0,
@@ -854,21 +970,11 @@ fn exec_sworld(w: &SWorld) -> SExec {
     let mut oh = Fnv::default();
     let r = with_ctx(&ctx, |ctx| {
         // every armed section gets the world's fuel; running dry makes the world inconclusive
-        let armed = |ctx: &Ctx, f: &mut dyn FnMut()| -> Result<(), bool> {
-            ctx.op_steps.set(0);
-            ctx.fuel.set(w.fuel);
-            ctx.cancel_at.set(0);
-            ctx.armed.set(true);
-            let r = catch_unwind(AssertUnwindSafe(|| f()));
-            ctx.armed.set(false);
-            match r {
-                Ok(()) => Ok(()),
-                Err(p) => Err(p.is::<SimCancel>()),
-            }
-        };
+        let _ = ctx;
+        let mut remote = 0usize;
         // reference: find_iter
         let mut f: Vec<(usize, usize)> = Vec::new();
-        if let Err(fuel) = armed(ctx, &mut || {
+        if let Err(fuel) = armed_here(w.fuel, &mut || {
             f = re.find_iter(h).map(|m| (m.start(), m.end())).collect();
         }) {
             return Err(fuel);
@@ -876,7 +982,22 @@ fn exec_sworld(w: &SWorld) -> SExec {
         ex.nmatches = f.len();
         ex.has_empty_match = f.iter().any(|m| m.0 == m.1);
         let len = h.len();
-        let mut searcher = (&re).into_searcher(h);
+        // Hop worlds: two helper threads; the searcher is created and first driven on A, later
+        // on B (which has used a searcher of its own by then). All other worlds: this thread.
+        let hop_world = w.script.iter().any(|o| matches!(o, SOp::Hop));
+        let helper_a = if hop_world { Some(Helper::new(1)) } else { None };
+        let helper_b = if hop_world { Some(Helper::new(2)) } else { None };
+        let mut cur: Option<&Helper> = helper_a.as_ref();
+        let mut on_b = false;
+        let mut b_warm = false;
+        let mut searcher_slot = None;
+        {
+            let mut mk = || searcher_slot = Some((&re).into_searcher(h));
+            if let Err(fuel) = mk.dispatch(cur, w.fuel, &mut remote) {
+                return Err(fuel);
+            }
+        }
+        let mut searcher = searcher_slot.expect("searcher created");
         let claims_de = searcher.claims_double_ended();
         ex.claims_de = claims_de;
         DE_CLAIMED.with(|c| c.set(claims_de && len > 0));
@@ -887,7 +1008,7 @@ fn exec_sworld(w: &SWorld) -> SExec {
         let mut f2: Vec<(usize, usize)> = Vec::new();
         let uses2 = w.script.iter().any(|o| matches!(o, SOp::Next2 | SOp::NextBack2));
         if uses2 {
-            if let Err(fuel) = armed(ctx, &mut || {
+            if let Err(fuel) = armed_here(w.fuel, &mut || {
                 f2 = re.find_iter(h2).map(|m| (m.start(), m.end())).collect();
             }) {
                 return Err(fuel);
@@ -902,7 +1023,32 @@ fn exec_sworld(w: &SWorld) -> SExec {
             let mut cloned = false;
             let mut hay_ok = true;
             let mut cons: Option<Option<(String, String)>> = None;
-            let res = armed(ctx, &mut || match op {
+            if let SOp::Hop = op {
+                ex.hops += 1;
+                if on_b {
+                    cur = helper_a.as_ref();
+                    on_b = false;
+                } else {
+                    cur = helper_b.as_ref();
+                    on_b = true;
+                    if !b_warm {
+                        // B has a searcher of its own (same &Regex, other haystack) and has used both
+                        // of its ends: whatever the library keeps per thread now belongs to that one
+                        b_warm = true;
+                        let h2w: &str = &w.hay2;
+                        let mut wu = || {
+                            let mut own = (&re).into_searcher(h2w);
+                            let _ = own.next_back();
+                            let _ = own.next();
+                        };
+                        if let Err(true) = wu.dispatch(cur, w.fuel, &mut remote) {
+                            return Err(true);
+                        }
+                    }
+                }
+                continue;
+            }
+            let mut job = || match op {
                 SOp::Next => obs = Some((true, step_to_obs(searcher.next()))),
                 SOp::NextBack => obs = Some((false, step_to_obs(searcher.next_back()))),
                 SOp::NextMatch => {
@@ -941,8 +1087,10 @@ fn exec_sworld(w: &SWorld) -> SExec {
                 }
                 SOp::Next2 => obs2 = Some((true, step_to_obs(searcher2.next()))),
                 SOp::NextBack2 => obs2 = Some((false, step_to_obs(searcher2.next_back()))),
+                SOp::Hop => {}
                 SOp::Consumer(c) => cons = Some(run_consumer(c, &re, h, &f)),
-            });
+            };
+            let res = job.dispatch(cur, w.fuel, &mut remote);
             match res {
                 Err(true) => return Err(true),
                 Err(false) => {
@@ -1003,7 +1151,7 @@ fn exec_sworld(w: &SWorld) -> SExec {
                     if let Obs::Match(a, _) | Obs::SkipMatch(a, _) = o {
                         if a <= len && h.is_char_boundary(a) {
                             let mut ok = true;
-                            let _ = armed(ctx, &mut || {
+                            let _ = armed_here(w.fuel, &mut || {
                                 ok = re.find_from(h, a).next().map(|m| m.start()) == Some(a);
                             });
                             if !ok {
@@ -1034,7 +1182,7 @@ fn exec_sworld(w: &SWorld) -> SExec {
         }
         if ex.viols.is_empty() && !w.no_drain {
             let bound = 4 * len + 12;
-            let res = armed(ctx, &mut || {
+            let mut drain_job = || {
                 let mut n = 0;
                 while !fw.done && n < bound {
                     let o = step_to_obs(searcher.next());
@@ -1068,7 +1216,8 @@ fn exec_sworld(w: &SWorld) -> SExec {
                         return;
                     }
                 }
-            });
+            };
+            let res = drain_job.dispatch(cur, w.fuel, &mut remote);
             match res {
                 Err(true) => return Err(true),
                 Err(false) => {
@@ -1097,7 +1246,7 @@ fn exec_sworld(w: &SWorld) -> SExec {
         }
         if uses2 && ex.viols.is_empty() {
             let bound2 = 4 * h2.len() + 12;
-            let res = armed(ctx, &mut || {
+            let mut drain2_job = || {
                 let mut n = 0;
                 while !fw2.done && n < bound2 {
                     let o = step_to_obs(searcher2.next());
@@ -1116,7 +1265,8 @@ fn exec_sworld(w: &SWorld) -> SExec {
                     }
                     n += 1;
                 }
-            });
+            };
+            let res = drain2_job.dispatch(cur, w.fuel, &mut remote);
             if let Err(true) = res {
                 return Err(true);
             }
@@ -1132,6 +1282,7 @@ fn exec_sworld(w: &SWorld) -> SExec {
         }
         ex.steps_fwd += fw.steps;
         ex.steps_bwd += bw.steps;
+        ex.remote_calls = remote;
         Ok(())
     });
     ex.sim_steps = ctx.total_steps.get();
@@ -1211,6 +1362,8 @@ fn cmd_worker(args: &[String]) -> i32 {
         st.add("faults.sibling_searcher_steps", e.sibling_steps as u64);
         st.add("probes.big_haystack_world_conclusive", e.big_worlds as u64);
         st.add("faults.searcher_clone_swaps", e.clone_swaps as u64);
+        st.add("faults.searcher_thread_hops", e.hops as u64);
+        st.add("probes.calls_made_on_a_helper_thread", e.remote_calls as u64);
         st.add("typelevel.searcher_claims_double_ended", e.claims_de as u64);
         st.add("compile_errors", e.compile_err as u64);
         st.add("ops.forward_steps", e.steps_fwd as u64);
